@@ -677,11 +677,16 @@ func runeClassFamily(r *RNG, s string) []string {
 		base = s[:i] + r.Pick(letters) + s[i+1:]
 		zero = s[:i] + r.Pick(digits) + s[i+1:]
 	}
+	// at most eight texts: a pool of seventy keeps its other families
 	out := []string{base, zero}
-	for _, suf := range []string{"~", ".", "-", "+", "_", "1", "a", "~1", ".0", "-1"} {
-		out = append(out, base+suf)
-		if r.Chance(40) {
-			out = append(out, zero+suf)
+	sufs := []string{"~", ".", "-", "+", "_", "1", "a", "~1", ".0", "-1"}
+	for k, i := range r.Perm(len(sufs)) {
+		if k >= 5 {
+			break
+		}
+		out = append(out, base+sufs[i])
+		if k == 0 {
+			out = append(out, zero+sufs[i])
 		}
 	}
 	return out
